@@ -227,7 +227,10 @@ def _prime_same_objects(case, f, kwargs):
     for k, v in kwargs.items():
         good = valid_kwargs.get(k)
         if isinstance(v, dict) and isinstance(good, dict) or isinstance(v, list) and isinstance(good, list):
-            bad = copy.deepcopy(v)
+            try:
+                bad = copy.deepcopy(v)
+            except Exception:
+                continue        # holds an object that cannot be copied (memoryview, ...): no priming for this case
             if isinstance(v, dict):
                 v.clear()
                 v.update(copy.deepcopy(good))
